@@ -191,7 +191,7 @@ Eval vm_compute in ("accesses outside the discipline without a justification", f
         else:
             bad_races.append(r)
     bad_fail = []
-    for f in rep["failures"]:
+    for f in (rep["failures"] or []):
         if f["thread"] >= 0 and f["op"]["kind"] == "MarshalJSON" and KF_MARSHAL in known and (KF_MARSHAL in seen_known):
             continue  # a torn text from the unlocked fast path (the known defect), only when its race was reported in this run
         bad_fail.append(f)
@@ -212,7 +212,7 @@ Eval vm_compute in ("accesses outside the discipline without a justification", f
                 r["case"] = -2
                 cases[-2] = json.load(open(os.path.join(cdir, fn)))
                 bad_races.append(r)
-        for f in crep["failures"]:
+        for f in (crep["failures"] or []):
             if f["thread"] >= 0 and f["op"] and f["op"]["kind"] == "MarshalJSON" and KF_MARSHAL in seen_known:
                 continue
             bad_fail.append(f)
